@@ -37,6 +37,14 @@ def check_phase(spec, tab, phase, stats):
     nontriv = False
     dead_roots = []
     for n in spec["nodes"]:
+        # outside the domain of the liveness rule: a powered, active regulator whose input
+        # does not exceed its dropout voltage legitimately outputs 0 V
+        if n["kind"] == "LinReg" and powered[n["name"]] and S.active_in(n, phase):
+            vin_ = tab.by[(phase, n["name"])]["Vin (V)"]
+            if abs(vin_) <= abs(n["params"].get("vdrop", 0.0)):
+                from vlib.runner import Skip
+                raise Skip("regulator_in_full_dropout")
+    for n in spec["nodes"]:
         name, k = n["name"], n["kind"]
         r = tab.by[(phase, name)]
         is_root = k != "Source" and powered[name] and not out[name] and k not in S.LOADS
@@ -97,7 +105,9 @@ def check_phase(spec, tab, phase, stats):
                 raise Fail("live.vin_zero." + k,
                            "phase {!r}: {!r} ({}) is on a live supply but Vin = 0".format(
                                phase, name, k))
-            if k in S.LOADS and R.load_value(n, phase) > 0 and not r["Iin (A)"] > 0:
+            # (only loads whose current is above the solver's absolute resolution of 1e-8 A)
+            if k in S.LOADS and R.law_iin(n, phase, r["Vin (V)"], 0.0) > 1e-6 and not (
+                    r["Iin (A)"] > 0):
                 raise Fail("live.load_no_current." + k,
                            "phase {!r}: live load {!r} draws {!r}".format(
                                phase, name, r["Iin (A)"]))
